@@ -166,6 +166,31 @@ def check_orientation(run, A):
                 labels = ['<raises>']
             got.append(labels)
             ok = ok and labels == [f'independent{i}' for i in range(nb)] + ['reference', 'estimate']
+    # a distance accumulated over blocks of frames covers every frame exactly once: the block bounds are folded for vector lengths around the multiples of the block size
+    g_e = g
+    for L_ in [l for l in g_e.loops if l.kind == 'for']:
+        sl = [x for e_ in g_e.events if e_.term is not None for x in walk_terms(e_.term) if x.op == 'slice' and
+              any(y.op == 'elem' and y.args and y.args[0] is L_.iter for z in x.args if isinstance(z, T) for y in walk_terms(z))]
+        seen_sl = []
+        for x in sl:
+            if not any(x is y for y in seen_sl):
+                seen_sl.append(x)
+        for x in seen_sl:
+            from ..inteval import chunk_coverage
+            consts_ = sorted({c_ for z in list(x.args) + [L_.iter] if isinstance(z, T) for y in walk_terms(z) for c_ in [const_val(y)]
+                              if isinstance(c_, int) and not isinstance(c_, bool) and c_ > 1})
+            ext_ = sorted({v for c_ in consts_ for v in (c_ - 1, c_, c_ + 1, 2 * c_ - 1, 2 * c_, 2 * c_ + 1) if 0 < v <= 20000} | {1, 2, 3})
+            res = None
+            for pn_ in ('mask', 'reference_mask'):
+                res = chunk_coverage(L_.iter, x, ('shape', pn_, -1), ext_)
+                if res is not None:
+                    break
+            if res is None:
+                run.unresolved('ORIENT', '_ScoreMatrix.euclidean: a block-wise sum covers every frame once', fn.loc(getattr(x, 'node', None)), 'block bounds are not closed integer expressions of the vector length')
+            else:
+                run.check(res[0] is True, 'ORIENT', '_ScoreMatrix.euclidean: a block-wise sum covers every frame once', fn.loc(getattr(x, 'node', None)), '',
+                          (f'for a vector axis of length {res[1]} the blocks leave out frames {res[2][:3]}{"..." if len(res[2]) > 3 else ""} ({len(res[2])} in all) and visit '
+                           f'{len(res[3])} twice: rows that differ only there get distance 0') if res[0] is False else '', construct=f'ORIENT::{q}::block-coverage')
     expansion = None
     if not recognised:
         # |a - b|^2 written as |a|^2 + |b|^2 - 2 Re<a, b>: a difference of two large, nearly equal numbers for close rows
